@@ -194,7 +194,25 @@ def rand_pair(rng, n, style):
     return (a, b)
 
 
+DIGIT_COLLISIONS = [((1, 11), (11, 1)), ((1, 10), (11, 0)), ((1, 12), (11, 2)), ((2, 11), (21, 1)), ((1, 21), (12, 1)), ((10, 1), (1, 1 + 0))]
+
+
 def gen_random_pattern(rng, family, nmax, lmax):
+    if family == "digits" and nmax < 13:
+        family = "pairs"
+    if family == "digits":
+        # two-digit qubit indices whose decimal spellings collide when written next to each other ("1"+"11" = "11"+"1"):
+        # neighbouring two-qubit items on such pairs act on DIFFERENT pairs and must not be fused
+        a, b = rng.choice(DIGIT_COLLISIONS[:3])
+        n = max(max(a), max(b)) + 1 + rng.choice([0, 0, 1])
+        pat = []
+        for _ in range(rng.randint(1, 3)):
+            pre = [(rng.choice([a[0], a[1], b[0], b[1], rng.randrange(n)]),) for _ in range(rng.randint(0, 2))]
+            pair = [a, b] if rng.random() < 0.5 else [b, a]
+            if rng.random() < 0.3:
+                pair = [pair[0], pair[0], pair[1]]
+            pat += pre + pair
+        return n, pat[:lmax]
     n = rng.choice([1, 2, 2, 3, 3, 4, 4, 5, 5, 6, 6, 7, 8, 9, 10, 11, 12])
     n = min(n, nmax)
     L = rng.choice([3, 4, 5, 6, 8, 10, 15, 20, 30, 45, 60, rng.randint(1, 60)])
@@ -246,7 +264,7 @@ def gen_random_pattern(rng, family, nmax, lmax):
 
 
 FAMILIES = ["generic", "generic", "runs", "trailing", "noq2", "noq2idle", "idle", "reversed", "distant", "window",
-            "window", "local", "pairs", "tail", "tail"]
+            "window", "local", "pairs", "tail", "tail", "digits"]
 
 
 # ------------------------------------------------------------------ the real code
@@ -552,7 +570,7 @@ def main(ctx):
     n_random = 6000 if ctx.thorough else 700
     for k in range(n_random):
         fam = FAMILIES[k % len(FAMILIES)]
-        n, pat = gen_random_pattern(rng, fam, 12, 60)
+        n, pat = gen_random_pattern(rng, fam, 13, 60)
         opt_cases.append((fam, n, materialise(rng, pat, 0.08 if len(pat) > 12 else 0.4)))
 
     # backend cases: every corpus case, a slice of the exhaustive scope, random lists; n up to 12
@@ -566,7 +584,7 @@ def main(ctx):
     for k in range(n_be_random):
         fam = FAMILIES[k % len(FAMILIES)]
         big = (k % 17 == 0)
-        n, pat = gen_random_pattern(rng, fam, 12 if big else 8, 10 if big else 40)
+        n, pat = gen_random_pattern(rng, fam, 13 if big else 8, 10 if big else 40)
         if big:
             n = rng.choice([9, 10, 11, 12]) if ctx.thorough else rng.choice([9, 10, 12])
             pat = [q for q in pat if all(x < n for x in q)] or [(n - 1,), (0, n - 1), (n - 2,)]
